@@ -201,6 +201,18 @@ func runC07(c *core.Ctx) int {
 		}
 	}
 
+	// long-lived process scenarios run beside the one-shot jobs
+	nWatch := c.N(2, 6)
+	watchOuts := make([]c07WatchOut, nWatch)
+	watchDone := make(chan struct{})
+	if c.Replay == "" {
+		go func() {
+			core.Parallel(nWatch, nWatch, func(i int) { watchOuts[i] = c07Watch(c, i) })
+			close(watchDone)
+		}()
+	} else {
+		close(watchDone)
+	}
 	core.Parallel(len(jobs), 16, func(j int) {
 		b, cs := jobs[j].b, jobs[j].cs
 		if b.dump == nil {
@@ -227,7 +239,25 @@ func runC07(c *core.Ctx) int {
 		}
 	})
 	run.Extra("server_requests_seen", srv.Requests.Load())
-	run.Assume("snooze timestamps are 2099-01-01 (future) and 2001-01-01 (expired): far from the run's clock, which is not controlled")
+	<-watchDone
+	if c.Replay == "" {
+		for _, wo := range watchOuts {
+			run.Eval(1)
+			run.Count("watch_iterations_observed", int64(wo.iterations))
+			run.Count("watch_rule_iterations_after_expiry_judged", int64(wo.afterSeen))
+			run.Count("watch_rule_iterations_before_expiry_judged", int64(wo.beforeSeen))
+			if wo.inconc != "" {
+				run.Inconclusive("watch scenario: " + wo.inconc)
+			}
+			for _, v := range wo.viol {
+				run.Violate(v)
+			}
+			if wo.afterSeen > 0 && wo.beforeSeen > 0 {
+				run.Nontrivial(fmt.Sprintf("watch:after=%d:before=%d", min(wo.afterSeen, 3), min(wo.beforeSeen, 3)))
+			}
+		}
+	}
+	run.Assume("snooze timestamps are 2099-01-01 (future) and 2001-01-01 (expired): far from the run's clock, which is not controlled; in the `pint watch` scenarios snoozes expire 2.5-7.5 s into an 11 s run and each iteration is judged against the times pint itself recorded (H1 records carry the writer's clock), never against the harness clock")
 	run.Assume("placements are those the documentation promises and that attach to the intended rule by YAML's comment rules; for reporters coming from a `locked` block a rule-level comment must change nothing, a file-level one is don't-care for the targeted reporter")
 	if c.Replay != "" {
 		if run.ViolationCount() > 0 {
@@ -238,7 +268,7 @@ func runC07(c *core.Ctx) int {
 		return 0
 	}
 	return run.Finish("exploration",
-		"base: the shared 'everything fires' scenario (15 alerting + 5 recording rules, configuration instantiating every check kind; offline and online against the engine-backed fake Prometheus; variants with locked blocks, rule{enable} lists, server tags; LF and CRLF files). For every (rule, reporter) pair present in the base report x comment form {disable, snooze future/expired, file/disable, file/snooze future/expired} x placement {above the item at item indent / column 0 / followed by a plain comment / by a blank line, trailing on first / expr / other field line, own line between fields, after the last field; file top, between rules} x spelling {name, name(prom), name(+tag)} (+ for a share: a second comment for the same check next to it - an expired snooze before or after, or the same comment twice): second run with the comment(s) inserted; oracle: H1 report multiset == base multiset with lines shifted minus exactly the targeted slice. Non-trivial = targeted slice non-empty while other reports exist; distinct by (reporter, form, placement, spelling).",
+		"base: the shared 'everything fires' scenario (15 alerting + 5 recording rules, configuration instantiating every check kind; offline and online against the engine-backed fake Prometheus; variants with locked blocks, rule{enable} lists, server tags; LF and CRLF files). For every (rule, reporter) pair present in the base report x comment form {disable, snooze future/expired, file/disable, file/snooze future/expired} x placement {above the item at item indent / column 0 / followed by a plain comment / by a blank line, trailing on first / expr / other field line, own line between fields, after the last field; file top, between rules} x spelling {name, name(prom), name(+tag)} (+ for a share: a second comment for the same check next to it - an expired snooze before or after, or the same comment twice): second run with the comment(s) inserted; oracle: H1 report multiset == base multiset with lines shifted minus exactly the targeted slice. Plus `pint watch` runs (interval 1.5 s) over rules whose snooze / file/snooze comments expire while the process runs: per iteration the check must be dispatched for the rule iff the iteration's decisions were taken after the expiry (judged on pint's own recorded times). Non-trivial = targeted slice non-empty while other reports exist; distinct by (reporter, form, placement, spelling).",
 		core.Floors{MinEvaluations: int64(len(jobs)), MinNontrivial: 60, MaxInconclusiveFrac: 0.02})
 }
 
